@@ -103,6 +103,8 @@ type qfact struct {
 type retRec struct {
 	st      *State
 	results []Val
+	pos     token.Pos
+	instr   ssa.Instruction
 }
 
 func (fx *FuncExec) relName() string { return fx.V.funcDisplay(fx.fn) }
@@ -399,6 +401,9 @@ func (fx *FuncExec) computeCFG() {
 		if fx.fc != nil {
 			li.spec = fx.fc.Loops[li.name]
 			// label form: "label.NAME" block comments
+			if li.spec == nil && h.Comment != "" && fx.fc.Loops[h.Comment] != nil {
+				li.spec = fx.fc.Loops[h.Comment] // a loop formed by a label: named after the label
+			}
 			if li.spec == nil && strings.HasPrefix(h.Comment, "label.") {
 				li.spec = fx.fc.Loops[strings.TrimPrefix(h.Comment, "label.")]
 			}
@@ -883,7 +888,7 @@ func (fx *FuncExec) execInstr(st *State, in ssa.Instruction) {
 		h := fx.heapTerm(st, dk, fmt.Sprintf("(Array Int (Array %s Bool))", ks), m)
 		st.heaps[dk] = fx.em.DefineRaw(dk, fx.heapInfos[dk].sortText, sto(h, r, fmt.Sprintf("((as const (Array %s Bool)) false)", ks)))
 		fx.logWriteAt(dk, r)
-		fx.assume(st, eq("(map.len "+r+")", "0"))
+		fx.assume(st, eq(fx.mapCard(m, fmt.Sprintf("((as const (Array %s Bool)) false)", ks)), "0"))
 		fx.def(x, Val{T: x.Type(), Sort: SInt, S: r})
 	case *ssa.MakeChan:
 		fx.def(x, Val{T: x.Type(), Sort: SInt, S: fx.NewRef(st, "chan")})
@@ -969,7 +974,7 @@ func (fx *FuncExec) execInstr(st *State, in ssa.Instruction) {
 		for _, r := range x.Results {
 			rs = append(rs, fx.val(st, r))
 		}
-		fx.returns = append(fx.returns, retRec{st: st.Clone(), results: rs})
+		fx.returns = append(fx.returns, retRec{st: st.Clone(), results: rs, pos: x.Pos(), instr: x})
 	case *ssa.Panic:
 		fx.oblige("nopanic", st, "false", "explicit panic() reachable", x.Pos())
 		st.dead = true
@@ -1103,6 +1108,22 @@ func (fx *FuncExec) execIndexAddr(st *State, x *ssa.IndexAddr) {
 	}
 }
 
+// mapCard is the length of a map: the cardinality of its current domain set (an uninterpreted function
+// of the domain array, so it changes whenever the contents may have changed).
+func (fx *FuncExec) mapCard(m *types.Map, dom string) string {
+	ks := string(fx.em.SortOf(m.Key()))
+	fn := "map.card_" + strings.NewReplacer("(", "", ")", "", " ", "_").Replace(ks)
+	fx.em.DeclareBase(fn, fmt.Sprintf("(declare-fun %s ((Array %s Bool)) Int)\n(assert (forall ((d (Array %s Bool))) (! (>= (%s d) 0) :pattern ((%s d)))))", fn, ks, ks, fn, fn))
+	return fmt.Sprintf("(%s %s)", fn, dom)
+}
+
+// mapLen: len(m) in state st.
+func (fx *FuncExec) mapLen(st *State, mv Val) string {
+	m := mv.T.Underlying().(*types.Map)
+	_, _, dh, _ := fx.mapHeaps(st, m)
+	return ite(eq(mv.S, "0"), "0", fx.mapCard(m, sel(dh, mv.S)))
+}
+
 func (fx *FuncExec) mapHeaps(st *State, m *types.Map) (dk, vk, dh, vh string) {
 	dk, vk = mapKeys(m)
 	ks, vs := fx.em.SortOf(m.Key()), fx.em.SortOf(m.Elem())
@@ -1148,7 +1169,10 @@ func (fx *FuncExec) execMapUpdate(st *State, x *ssa.MapUpdate) {
 	dk, vk, dh, vh := fx.mapHeaps(st, m)
 	fx.oblige("mapnil", st, not(eq(base.S, "0")), "assignment to entry in nil map", x.Pos())
 	fx.checkGuardMap(st, x.Map, x.Pos())
-	st.heaps[dk] = fx.em.DefineRaw(dk, fx.heapInfos[dk].sortText, sto(dh, base.S, sto(sel(dh, base.S), k.S, "true")))
+	oldDom := sel(dh, base.S)
+	newDom := sto(oldDom, k.S, "true")
+	fx.em.Assert(eq(fx.mapCard(m, newDom), ite(sel(oldDom, k.S), fx.mapCard(m, oldDom), add(fx.mapCard(m, oldDom), "1"))))
+	st.heaps[dk] = fx.em.DefineRaw(dk, fx.heapInfos[dk].sortText, sto(dh, base.S, newDom))
 	st.heaps[vk] = fx.em.DefineRaw(vk, fx.heapInfos[vk].sortText, sto(vh, base.S, sto(sel(vh, base.S), k.S, v.S)))
 	fx.logWriteAt(dk, base.S)
 	fx.logWriteAt(vk, base.S)
@@ -1649,6 +1673,37 @@ func (fx *FuncExec) finish() {
 			genv.clauseSrc = g.RHS.Src
 			v := fx.evalSpec(genv, g.RHS.Expr)
 			fx.Store(exit, l, v)
+		}
+	}
+	// `at return #N assert e`: e holds at the N-th return statement (source order), with that
+	// return's own results and state (no merging with the other returns)
+	if len(fx.fc.Returns) > 0 {
+		var all []ssa.Instruction
+		for _, b := range fx.fn.Blocks {
+			for _, in := range b.Instrs {
+				if _, ok := in.(*ssa.Return); ok && in.Pos() != token.NoPos {
+					all = append(all, in)
+				}
+			}
+		}
+		sort.SliceStable(all, func(i, j int) bool { return all[i].Pos() < all[j].Pos() })
+		ord := map[ssa.Instruction]int{}
+		for i, in := range all {
+			ord[in] = i + 1
+		}
+		for _, rs := range fx.fc.Returns {
+			for _, r := range fx.returns {
+				if ord[r.instr] != rs.Ordinal {
+					continue
+				}
+				renv := fx.specEnv(r.st, fx.entry)
+				renv.results = r.results
+				renv.atReturn = true
+				for _, a := range rs.Asserts {
+					fx.obligeClause("assert@return", r.st, renv, a, fmt.Sprintf("at return #%d: %s", rs.Ordinal, a.Text), r.pos)
+				}
+				fx.usedCallSites[rs] = true
+			}
 		}
 	}
 	env := fx.specEnv(exit, fx.entry)
